@@ -6,13 +6,13 @@
 (* table, the step formulas on (observed pre-state, operation, observed post-state), C11 on every  *)
 (* observed closest() answer and accumulator.                                                     *)
 EXTENDS Integers, Sequences, FiniteSets, TLC, Json, IOUtils, TLCExt
-CONSTANTS KK, StaleC, RefreshKnownC
+CONSTANTS KK, StaleC, RefreshKnownC, RekeySortedC
 IM == INSTANCE IdMath
 TDist(a, b) == IM!Distance(a, b)
 TXorLt(a, b, t) == IM!XorLess(a, b, t)
 TPfx(id) == IM!First21(id)
 VARIABLES s, l, U, mode, beh
-INSTANCE RT WITH K <- KK, Stale <- StaleC, RefreshKnown <- RefreshKnownC, DistOp <- TDist, XorLt <- TXorLt, Pfx <- TPfx
+INSTANCE RT WITH K <- KK, Stale <- StaleC, RefreshKnown <- RefreshKnownC, RekeySorted <- RekeySortedC, DistOp <- TDist, XorLt <- TXorLt, Pfx <- TPfx
 
 Rec == ndJsonDeserialize(IOEnv.TRACE)
 vars == <<s, l, U, mode, beh>>
